@@ -18,20 +18,91 @@ import common
 TEMPLATES = ['/a', '/a/b', '/a/{x}', '/a/{x}/c', '/{y}', '/a/{n:int}', '/f/{p:path}', '/s/x', '/s',
              '/a/{x}.json', '/st/f.txt', '/a/{k}/t', '/']
 BAD_TEMPLATES = ['a', '/a//b', '/a/{x}/{x}', '/q/{z:nope}', '/q/{class}']
-SINK_PATS = [[0, '/s'], [0, '/'], [0, '/a'], [0, '/s/x'], [0, '/zz'], [1, '/s/', 'id', ''], [1, '/a/', 'k', '/t'],
-             [1, '/', 'top', '/x'], [0, '/a.b'], [1, '/f/', 'u', '']]
+# sink prefix patterns as ASTs of the modelled regex language (wire shape of Extract.d_rx):
+# [0, lit]  [1, cls, quant]  [2, name, r] named group  [3, r] (?:r)?  [4, a, b] (?:a|b)  [5, a, b] sequence
+DIGIT, LOWER, NOTSLASH, ANY = 0, 1, 2, 3
+ONE, PLUS, STAR = 0, 1, 2
+
+
+def lit(x):
+    return [0, x]
+
+
+def cls(c, q):
+    return [1, c, q]
+
+
+def named(n, r):
+    return [2, n, r]
+
+
+def opt(r):
+    return [3, r]
+
+
+def alt(a, b):
+    return [4, a, b]
+
+
+def seq(*rs):
+    out = rs[-1]
+    for r in reversed(rs[:-1]):
+        out = [5, r, out]
+    return out
+
+
+SINK_PATS = [
+    lit('/s'), lit('/'), lit('/a'), lit('/s/x'), lit('/zz'), lit('/a.b'),
+    seq(lit('/s/'), named('id', cls(NOTSLASH, PLUS))),
+    seq(lit('/a/'), named('k', cls(NOTSLASH, PLUS)), lit('/t')),
+    seq(lit('/'), named('top', cls(NOTSLASH, PLUS)), lit('/x')),
+    seq(lit('/f/'), named('u', cls(NOTSLASH, PLUS))),
+    # optional / alternation / nested groups: some named groups do not take part in a match
+    seq(lit('/api'), opt(seq(lit('/v'), named('version', cls(DIGIT, PLUS)))), lit('/'),
+        named('service', cls(LOWER, PLUS)), opt(named('rest', seq(lit('/'), cls(ANY, STAR))))),
+    seq(lit('/s'), opt(seq(lit('/'), named('first', cls(LOWER, PLUS)))), opt(seq(lit('/'), named('num', cls(DIGIT, PLUS))))),
+    alt(seq(lit('/a/'), named('n', cls(DIGIT, PLUS))), seq(lit('/a/'), named('w', cls(LOWER, PLUS)))),
+    seq(lit('/'), alt(named('one', lit('s')), named('two', lit('f'))), opt(named('tail', seq(lit('/'), named('leaf', cls(NOTSLASH, STAR)))))),
+    seq(lit('/a'), named('outer', opt(seq(lit('/'), named('inner', cls(LOWER, PLUS))))), opt(lit('/'))),
+]
+
+CLS_RX = {DIGIT: r'\d', LOWER: '[a-z]', NOTSLASH: '[^/]', ANY: '.'}
+QUANT_RX = {ONE: '', PLUS: '+', STAR: '*'}
+
+
+def sink_regex(p):
+    t = p[0]
+    if t == 0:
+        return re.escape(p[1])
+    if t == 1:
+        return CLS_RX[p[1]] + QUANT_RX[p[2]]
+    if t == 2:
+        return '(?P<%s>%s)' % (p[1], sink_regex(p[2]))
+    if t == 3:
+        return '(?:%s)?' % sink_regex(p[1])
+    if t == 4:
+        return '(?:%s|%s)' % (sink_regex(p[1]), sink_regex(p[2]))
+    return sink_regex(p[1]) + sink_regex(p[2])
+
+
+def group_names(p):
+    t = p[0]
+    if t in (0, 1):
+        return []
+    if t == 2:
+        return [p[1]] + group_names(p[2])
+    if t == 3:
+        return group_names(p[1])
+    return group_names(p[1]) + group_names(p[2])
+
+
 STATIC_PREFIXES = ['/s', '/s/x', '/a', '/st/', '/', '/f', 'bad']
-PATHS = ['/a', '/a/b', '/a/q', '/a/q/c', '/a/12', '/s', '/s/x', '/s/x/f.txt', '/s/f.txt', '/zz', '/', '/a/q/t',
+PATHS = ['/api/users', '/api/v2/users', '/api/v10/users/x/y', '/api/v/users', '/s/abc/12', '/s/12', '/a/12x', '/a/',
+         '/a', '/a/b', '/a/q', '/a/q/c', '/a/12', '/s', '/s/x', '/s/x/f.txt', '/s/f.txt', '/zz', '/', '/a/q/t',
          '/f/u/v', '/a/q.json', '/s/', '/st/f.txt', '/a/f.txt', '/f.txt', '/x/f.txt', '/a/x/f.txt', '/f', '/q/x',
          '/aXb', '/f/f.txt', '/a/q\n']
 FILES = ['f.txt', 'x/f.txt']
 SUFFIXES = [None, None, None, 'items', '', 'zzz']
-
-
-def sink_regex(p):
-    if p[0] == 0:
-        return re.escape(p[1])
-    return re.escape(p[1]) + '(?P<%s>[^/]+)' % p[2] + re.escape(p[3])
 
 
 def make_responder(kind, ident, attr, asgi):
@@ -48,6 +119,47 @@ def make_responder(kind, ident, attr, asgi):
 
 class Res:
     pass
+
+
+class FalsyBool:
+    def __bool__(self):
+        return False
+
+
+class FalsyLen:
+    def __len__(self):
+        return 0
+
+
+class FalsyDict(dict):
+    pass
+
+
+RES_KINDS = [Res, FalsyBool, FalsyLen, FalsyDict]      # kind 0 is truthy, the others falsy
+
+
+def make_sink(ident, names, asgi, explicit):
+    """a sink that tags itself with the kwargs it received; `explicit`: declared with one
+    parameter per named group of its pattern instead of **kwargs"""
+    if not explicit or not names:
+        return make_responder('sink', ident, '', asgi)
+    ns = {'json': json, 'ident': ident}
+    args = ', '.join(names)
+    body = ("    resp.set_header('X-Tag', json.dumps(['sink', ident, '', {%s}], sort_keys=True))\n"
+            % ', '.join('%r: %s' % (n, n) for n in names))
+    src = ('async ' if asgi else '') + 'def sink(req, resp, %s):\n' % args + body
+    exec(src, ns)
+    return ns['sink']
+
+
+class RsrcMw:
+    def process_resource(self, req, resp, resource, params):
+        resp.set_header('X-Rsrc', '1')
+
+
+class ARsrcMw:
+    async def process_resource(self, req, resp, resource, params):
+        resp.set_header('X-Rsrc', '1')
 
 
 def gen_app(rng, methods):
@@ -79,10 +191,10 @@ def gen_app(rng, methods):
                 if a[0] not in seen:
                     seen.add(a[0])
                     uniq.append(a)
-            ops.append([0, tpl, rid, uniq, [] if suffix is None else [suffix]])
+            ops.append([0, tpl, rid, uniq, [] if suffix is None else [suffix], rng.choice([0, 0, 0, 1, 2, 3])])
             rid += 1
         elif r < 0.75:
-            ops.append([1, sid, rng.choice(SINK_PATS)])
+            ops.append([1, sid, rng.choice(SINK_PATS), rng.random() < 0.5])
             sid += 1
         else:
             ops.append([2, sid, rng.choice(STATIC_PREFIXES), 1 if rng.random() < 0.4 else 0])
@@ -95,12 +207,12 @@ def build_real(falcon, asgi, sbs, ops, tmp):
     from falcon.routing import compiled
     from falcon.routing.util import SuffixedMethodNotFoundError
     App = falcon.asgi.App if asgi else falcon.App
-    app = App(sink_before_static_route=sbs)
+    app = App(sink_before_static_route=sbs, middleware=[ARsrcMw() if asgi else RsrcMw()])
     results, static_info = [], {}
     for o in ops:
         try:
             if o[0] == 0:
-                res = Res()
+                res = RES_KINDS[o[5] if len(o) > 5 else 0]()
                 for name, is_callable in o[3]:
                     setattr(res, name, make_responder('route', o[2], name, asgi) if is_callable else 5)
                 kw = {}
@@ -108,7 +220,7 @@ def build_real(falcon, asgi, sbs, ops, tmp):
                     kw['suffix'] = o[4][0]
                 app.add_route(o[1], res, **kw)
             elif o[0] == 1:
-                app.add_sink(make_responder('sink', o[1], '', asgi), sink_regex(o[2]))
+                app.add_sink(make_sink(o[1], group_names(o[2]), asgi, len(o) > 3 and o[3]), sink_regex(o[2]))
             else:
                 d = os.path.join(tmp, 'st%d_%d' % (int(asgi), o[1]))
                 if not os.path.isdir(d):
@@ -132,6 +244,10 @@ def build_real(falcon, asgi, sbs, ops, tmp):
 
 def observe(resp):
     """simulate_request result -> canonical observation"""
+    return observe_(resp), resp.headers.get('X-Rsrc') == '1'
+
+
+def observe_(resp):
     tag = resp.headers.get('X-Tag')
     if tag is not None and resp.status_code == 200:
         kind, ident, attr, kw = json.loads(tag)
@@ -164,7 +280,7 @@ def expected_obs(out, method, path, static_info):
     if t == 3:
         return ('400',)
     if t == 4:
-        return ('sink', out[1], tuple(sorted((common.wstr(k), common.wstr(v)) for k, v in out[2])))
+        return ('sink', out[1], tuple(sorted((common.wstr(k), common.wstr(v[0]) if v else None) for k, v in out[2])))
     if t == 5:
         prefix, fb = static_info[out[1]]
         if method == 'OPTIONS':
@@ -201,7 +317,7 @@ def obs_to_wire(obs, predicted, predicted_obs):
     if k == '400':
         return [3]
     if k == 'sink':
-        return [4, obs[1], [[a, b] for a, b in obs[2]]]
+        return [4, obs[1], [[a, [] if b is None else [b]] for a, b in obs[2]]]
     if k in ('static-file', 'static-fallback'):
         return [5, obs[1]]
     if k == '404':
@@ -214,20 +330,24 @@ def check_app(ctx, model, falcon, testing, sbs, ops, methods, paths, tmp, tag='g
     for asgi in (False, True):
         app, results, static_info = build_real(falcon, asgi, sbs, ops, tmp)
         client = testing.TestClient(app)
-        obs = []
+        obs, rsrc_ran = [], []
+        wire_ops = [o[:5] if o[0] == 0 else o[:3] if o[0] == 1 else o for o in ops]
+        truthy = {o[2]: (len(o) <= 5 or o[5] == 0) for o in ops if o[0] == 0}
         with warnings.catch_warnings():
             warnings.simplefilter('ignore')      # wsgiref.validate warns about non-standard methods
             for m in methods:
                 for p in paths:
                     r = client.simulate_request(m, p)
-                    obs.append(observe(r))
+                    ob, ran = observe(r)
+                    obs.append(ob)
+                    rsrc_ran.append(ran)
         # first pass: the model's predictions; second pass: the oracle on the observations
         qs = [[m, p, [7]] for m in methods for p in paths]
-        out = model.run([0, sbs, ops, qs])
+        out = model.run([0, sbs, wire_ops, qs])
         preds = [o[0] for o in out[1]]
         exps = [expected_obs(o, q[0], q[1], static_info) for o, q in zip(preds, qs)]
         qs2 = [[q[0], q[1], obs_to_wire(ob, pr, ex)] for q, ob, pr, ex in zip(qs, obs, preds, exps)]
-        out2 = model.run([0, sbs, ops, qs2])
+        out2 = model.run([0, sbs, wire_ops, qs2])
         detail0 = {'asgi': asgi, 'sbs': sbs, 'ops': ops, 'tag': tag}
         if out[0] != results:
             i = next(i for i, (a, b) in enumerate(zip(out[0], results)) if a != b)
@@ -236,8 +356,17 @@ def check_app(ctx, model, falcon, testing, sbs, ops, methods, paths, tmp, tag='g
                           found_input=False, key='corr-reg')
             clean = False
             continue
-        for q, ob, pr, ex, o2 in zip(qs, obs, preds, exps, out2[1]):
+        for q, ob, pr, ex, o2, ran in zip(qs, obs, preds, exps, out2[1], rsrc_ran):
             verdict, spec_fb = o2[1], o2[2]
+            # process_resource middleware: the code runs it iff a route matched and the resource
+            # object is truthy (`if resource:` in __call__) - outside C02's statement, modelled
+            # as the code does
+            want_ran = bool(o2[3]) and truthy.get(o2[3][0], True)
+            if ran != want_ran:
+                ctx.violation('correspondence-broken',
+                              dict(detail0, broken='C02.process_resource_gating', method=q[0], path=q[1],
+                                   impl_ran=ran, expected_ran=want_ran), found_input=False, key='rsrc')
+                clean = False
             detail = dict(detail0, method=q[0], path=q[1], impl=list(ob), model=list(ex))
             if verdict != 1:
                 ctx.violation('dispatch-differs', detail, key='dispatch-%s-%s' % (ob[0], ex[0]))
@@ -258,17 +387,61 @@ def check_app(ctx, model, falcon, testing, sbs, ops, methods, paths, tmp, tag='g
     return clean
 
 
+API = SINK_PATS[10]
 FIXED_APPS = [
     # LIFO among sinks, sink vs static order, route masks both
-    (True, [[1, 0, [0, '/s']], [1, 1, [0, '/s']], [2, 2, '/s', 0], [0, '/s/x', 0, [['on_get', 1]], []]]),
-    (False, [[1, 0, [0, '/s']], [2, 1, '/s', 0], [2, 2, '/s', 1], [1, 3, [1, '/s/', 'id', '']]]),
-    (True, [[2, 0, '/s', 1], [1, 1, [0, '/s/x']], [2, 2, '/s/x', 0], [1, 3, [0, '/zz']]]),
-    (True, [[0, '/a/{x}', 0, [['on_get', 1], ['on_post', 1], ['on_get_items', 1]], []],
-            [0, '/a/{x}/c', 1, [['on_get', 1], ['on_get_items', 1], ['on_delete_items', 1]], ['items']],
-            [0, '/a', 2, [['on_options', 1], ['on_put', 1]], []], [1, 0, [0, '/a']]]),
-    (True, [[0, '/a', 0, [['on_websocket', 1], ['on_get', 1]], []], [0, '/a/b', 1, [['on_get', 1]], ['zzz']],
-            [0, '/a/b', 2, [['on_patch', 0], ['on_get', 1]], ['']]]),
+    (True, [[1, 0, lit('/s'), False], [1, 1, lit('/s'), False], [2, 2, '/s', 0],
+            [0, '/s/x', 0, [['on_get', 1]], [], 0]]),
+    (False, [[1, 0, lit('/s'), False], [2, 1, '/s', 0], [2, 2, '/s', 1],
+             [1, 3, seq(lit('/s/'), named('id', cls(NOTSLASH, PLUS))), True]]),
+    (True, [[2, 0, '/s', 1], [1, 1, lit('/s/x'), False], [2, 2, '/s/x', 0], [1, 3, lit('/zz'), False]]),
+    # the combined order must be rebuilt by add_sink as well: static route first, overlapping sink after
+    (False, [[2, 0, '/s', 0], [1, 1, lit('/s'), False]]),
+    (True, [[2, 0, '/s', 0], [1, 1, lit('/s'), False]]),
+    (False, [[1, 0, lit('/s'), False], [2, 1, '/s', 0], [1, 2, lit('/s/x'), True]]),
+    (True, [[0, '/a/{x}', 0, [['on_get', 1], ['on_post', 1], ['on_get_items', 1]], [], 0],
+            [0, '/a/{x}/c', 1, [['on_get', 1], ['on_get_items', 1], ['on_delete_items', 1]], ['items'], 1],
+            [0, '/a', 2, [['on_options', 1], ['on_put', 1]], [], 2], [1, 0, lit('/a'), False]]),
+    (True, [[0, '/a', 0, [['on_websocket', 1], ['on_get', 1]], [], 3], [0, '/a/b', 1, [['on_get', 1]], ['zzz'], 0],
+            [0, '/a/b', 2, [['on_patch', 0], ['on_get', 1]], [''], 1]]),
+    # falsy resources still mask sinks / static routes, answer 405 / OPTIONS, deliver fields
+    (True, [[1, 0, lit('/'), False], [2, 1, '/a', 1],
+            [0, '/a/{x}', 0, [['on_get', 1]], [], 1], [0, '/a/{n:int}/c', 1, [['on_put', 1]], [], 3],
+            [0, '/s', 2, [['on_get', 1], ['on_options', 1]], [], 2]]),
+    # named groups that do not take part arrive as None, for explicit-parameter and **kwargs sinks
+    (True, [[1, 0, API, True], [1, 1, SINK_PATS[11], True], [1, 2, SINK_PATS[12], False]]),
+    (False, [[1, 0, API, False], [1, 1, SINK_PATS[13], True], [1, 2, SINK_PATS[14], True]]),
 ]
+
+
+def rx_corr(ctx, model):
+    """spat_match vs re.match(...).groupdict() for every pattern of the menu on a path list"""
+    import itertools
+    segs = ['', 'a', 's', 'f', 'api', 'v2', 'v', 'users', '12', 'x', 'ab1', 'a.b', 't']
+    paths = set(PATHS)
+    for k in (1, 2, 3):
+        for c in itertools.product(segs, repeat=k):
+            paths.add('/' + '/'.join(c))
+    paths = sorted(paths)
+    n = 0
+    for i, p in enumerate(SINK_PATS):
+        rxc = re.compile(sink_regex(p))
+        # one single-sink app per pattern: the model's outcome for an unrouted path is the sink match
+        out = model.run([0, 1, [[1, 0, p]], [['GET', q, [7]] for q in paths]])
+        for q, o in zip(paths, out[1]):
+            m = rxc.match(q)
+            want = None if m is None else m.groupdict()
+            got = None
+            if o[0][0] == 4:
+                got = {common.wstr(k): (common.wstr(v[0]) if v else None) for k, v in o[0][2]}
+            n += 1
+            if got != want:
+                ctx.violation('correspondence-broken', {'broken': 'C02.spat_match_corr', 'pattern': sink_regex(p),
+                                                        'path': q, 're': want, 'model': got},
+                              found_input=False, key='rx-corr')
+                break
+        ctx.note_case(('rx', i), True)
+    ctx.count('spat_match-vs-re', n)
 
 
 def main(ctx):
@@ -276,6 +449,7 @@ def main(ctx):
     from falcon import testing
     import falcon.constants as constants
     model = common.Model(ctx)
+    rx_corr(ctx, model)
     ctx.cov['rule'] = ('one case = one generated app (routes with random method subsets / suffixes, sinks, static '
                        'routes, sink_before_static_route) on one of WSGI / ASGI, queried with ~10 methods x 25 paths; '
                        'every observation (what ran, kwargs, status, Allow) judged by the extracted dispatch_oracle. '
